@@ -291,7 +291,7 @@ def run(ctx):
     if len(strings) < 1000 and not ctx.violations:
         raise core.MachineryError('Draw_MC emitted %d strings' % len(strings))
     big = [('vga', 9), ('ega', 8), ('hercules', 3), ('olivetti', 3), ('egamono', 10), ('ega64k', 9), ('pcjr', 6), ('tandy', 6)]
-    enum_modes = [big[ctx.seed % len(big)], big[(ctx.seed + 3) % len(big)]] if ctx.quick() else [big[ctx.seed % len(big)]]
+    enum_modes = [big[ctx.seed % len(big)]]
     small_sample = None
     per_mode_random = ctx.pick(8, 90)
     all_tests = []
@@ -307,10 +307,10 @@ def run(ctx):
             if small_sample is None:
                 small_sample = [s for s in strings if len(s) <= 3]
                 rng.shuffle(small_sample)
-                small_sample = small_sample[:1200]
+                small_sample = small_sample[:600]
             todo = small_sample
         else:
-            todo = [strings[rng.randrange(len(strings))] for _ in range(60)]
+            todo = [strings[rng.randrange(len(strings))] for _ in range(30)]
         for i, s in enumerate(todo):
             cell = cells[i % len(cells)]
             cmds = T.fix_colours([dict(c) for c in s])
@@ -373,6 +373,21 @@ def run(ctx):
                      'exception': e.get('detail', '').split(':')[0]},
                 data={'event': e, 'pre': t.get('pre')})
     ctx.cov['tests_by_kind'] = labels
+    feats = {'varptr_number': 0, 'var_reference': 0, 'array_reference': 0, 'substring': 0, 'varptr_substring': 0, 'segments_drawn': 0, 'drew_something': 0}
+    for T in all_tests:
+        for t in T.tests:
+            e = T.events[t['ev']]
+            st = e.get('stmt', '')
+            feats['varptr_number'] += '="+VARPTR$' in st
+            feats['var_reference'] += bool(re.search(r'=[NFD]\d[%!#];', st))
+            feats['array_reference'] += bool(re.search(r'=[BC][%!]\(', st))
+            feats['substring'] += bool(re.search(r'X(S\d\$;|"\+VARPTR)', st))
+            feats['varptr_substring'] += 'X"+VARPTR$' in st
+            feats['segments_drawn'] += len(e.get('lines', []))
+            feats['drew_something'] += bool(e.get('lines')) and e.get('ok', False)
+    ctx.cov['features'] = feats
+    if feats['drew_something'] < 800 or feats['substring'] < 5 or feats['varptr_number'] < 20:
+        raise core.MachineryError('vacuous: %r' % feats)
     T = all_tests[0]
     for t in (T.tests[1], T.tests[len(T.tests) // 2], T.tests[-6]):
         e = T.events[t['ev']]
